@@ -107,9 +107,11 @@ func genC02(t *rapid.T) c02Case {
 	return c02Case{Frame: sanitizeInterior(frame), Origin: origin}
 }
 
-// c02PriorFrame is a valid fragmented 2019 frame decoded into the re-used message before each case.
-var c02PriorFrame = ref.Spec{ID: 0x0801, Version2019: true, VersionByte: 1, Fragmented: true, Total: 3, No: 2, Serial: 9,
-	PhoneBCD: ref.PhoneBCDFromDigits("13800138000", 10), Body: []byte{1, 2, 3}}.Build()
+// c02PriorFrame is a valid fragmented 2019 frame, dense in escapes, decoded into the re-used message after the
+// fresh message decoded the case (so decode buffers recycled between calls would show in the fresh message's fields).
+var c02PriorFrame = ref.Spec{ID: 0x0801, Version2019: true, VersionByte: 1, Fragmented: true, Total: 3, No: 2, Serial: 0x7e7d,
+	PhoneBCD: []byte{0x7e, 0x7d, 0x13, 0x80, 0x01, 0x38, 0x00, 0x7d, 0x7e, 0x11},
+	Body:     []byte{0x7e, 0x7d, 0x01, 0x02, 0x7d, 0x7d, 0x7e, 0x7e, 0xa5, 0x5a, 0x7e, 0x33, 0x7d, 0x44, 0x55, 0x66, 0x77, 0x88, 0x99, 0xaa, 0xbb, 0xcc, 0xdd, 0xee, 0xff, 0x12, 0x34, 0x56}}.Build()
 
 func checkC02(c c02Case, _ *kit.Collector) kit.Result {
 	return checkC02Frame(c.Frame, c.Origin)
